@@ -90,7 +90,7 @@ def gen_spec(rng, flavour=None):
                 leaf["only_workers"] = sorted(rng.sample(range(len(workers)), rng.randint(1, len(workers) - 1)))
     node_params = {"test_timeout": rng.choice(["100", "100", "10", "250"]), "pool_scope": rng.choice(SCOPES)}
     if flavour == "retry" or rng.random() < 0.25:
-        node_params["max_tries"] = rng.choice(["2", "3", "4"])
+        node_params["max_tries"] = rng.choice(["2", "3", "4", "2", "3", "0"])      # 0 is accepted by the code: no retries
         if rng.random() < 0.5:
             node_params["max_concurrent_tries"] = rng.choice(["1", "2", "3"])
         if rng.random() < 0.3:
